@@ -16,13 +16,97 @@ TASKS = [
     LemmaTask("zero-variance-mean", pos, (w1 / (w1 + w2)) * v1 + (w2 / (w1 + w2)) * v2 == (w1 * v1 + w2 * v2) / (w1 + w2),
               "with zero generator standard deviations every realisation of sensor i equals its mean: the weighted mean is the closed form"),
 ]
+# ---------------------------------------------------------------------------------------------------------------------
+# _statistics under contract: normalised weights, weighted mean over all realisations, reliability-weighted standard deviation.  The sums over
+# one row of realisations are abstracted by name (np.sum over the columns is trusted: A-NP-SUM): ROWSUM(r) = sum_c v[r,c] and
+# ROWSS(r, m) = sum_c (v[r,c] - m)^2; the contract is about everything around them.
+from pyvc.core import I, R, FuncV, ModV, ARef, Tup, Undecided
+from pyvc.contract import Contract, FunctionTask, sym_arr1, sym_arr2
+from pyvc import npmodel as npm
+from pyvc.npmodel import SQRT
+
+AR = z3.ArraySort(I, R)
+K, N = z3.Ints("n_generators n_realizations")
+V = z3.Const("values", z3.ArraySort(I, AR))
+W = z3.Const("weights", AR)
+SUMW = z3.Real("sum_of_weights")
+ROWSUM = z3.Function("ROWSUM", I, R)
+ROWSS = z3.Function("ROWSS", I, R, R)
+M1, NUM, W2 = z3.Function("M1", I, R), z3.Function("NUM", I, R, R), z3.Function("W2", I, R)     # prefix sums over the generators
+
+
+def NW(r):
+    return z3.Select(W, r) / SUMW
+
+
+_k, _m = z3.Int("k!s"), z3.Real("m!s")
+AX_ST = [M1(0) == 0, z3.ForAll([_k], z3.Implies(_k >= 0, M1(_k + 1) == M1(_k) + NW(_k) * ROWSUM(_k)), patterns=[M1(_k + 1)]),
+         z3.ForAll([_m], NUM(0, _m) == 0, patterns=[NUM(0, _m)]),
+         z3.ForAll([_k, _m], z3.Implies(_k >= 0, NUM(_k + 1, _m) == NUM(_k, _m) + NW(_k) * ROWSS(_k, _m)), patterns=[NUM(_k + 1, _m)]),
+         W2(0) == 0, z3.ForAll([_k], z3.Implies(_k >= 0, W2(_k + 1) == W2(_k) + NW(_k) * NW(_k)), patterns=[W2(_k + 1)])]
+
+
+def _rows_in(t, acc):
+    if z3.is_select(t) and t.arg(0).eq(V):
+        acc.append(t.arg(1))
+        return
+    for c_ in t.children():
+        _rows_in(c_, acc)
+    if z3.is_quantifier(t):
+        _rows_in(t.body(), acc)
+
+
+def _m_sum(ex, st, args, kw, node):
+    x = args[0]
+    if not isinstance(x, ARef):
+        return x                                   # np.sum of a scalar is the scalar
+    d = ex.arr(st, x)
+    if d.data.eq(W):
+        return SUMW
+    c0 = z3.Int("c!sum")
+    elem = z3.simplify(z3.Select(d.data, c0))       # the summand at column c
+    rows = []
+    _rows_in(elem, rows)
+    for r in rows:
+        e = z3.Select(z3.Select(V, r), c0)
+        if z3.simplify(elem - e).eq(z3.RealVal(0)):
+            return ROWSUM(r)
+        m_ = st.env.get("mean")
+        if m_ is not None and z3.simplify(elem - (e - m_) * (e - m_)).eq(z3.RealVal(0)):
+            return ROWSS(r, m_)
+    raise Undecided(f"np.sum of an expression the _statistics abstraction does not name: {elem}")
+
+
+def _st_inputs(ex, st):
+    st.env["values"] = ex.alloc_arr(st, (K, N), V, "real", "param:values", tag="values")
+    st.env["weights"] = ex.alloc_arr(st, (K,), W, "real", "param:weights", tag="weights")
+    st.env["K"], st.env["N"] = K, N
+    return [K >= 1, N >= 1, SUMW != 0]
+
+
+def _row_born(ex, st, v):
+    return ex.alloc_arr(st, (N,), ex.fresh("row", AR), "real", "param:values", tag="row")
+
+
+STATS = Contract(
+    qual="hvsrpy.hvsr_spatial._statistics", params=["values", "weights"], axioms=AX_ST, make_inputs=_st_inputs,
+    ghost={"M1": M1, "NUM": NUM, "W2": W2, "sqrt": SQRT},
+    requires=["1 - W2(K) / N != 0"],
+    ensures=["result[0] == M1(K) / N", "result[1] == sqrt((NUM(K, M1(K) / N) / N) / (1 - W2(K) / N))"],
+    loops={0: ["mean == M1(_k0)"], 1: ["numerator == NUM(_k1, mean)", "w2 == W2(_k1)"]}, modifies=[],
+    notes="mean = sum_r nw_r ROWSUM(r) / N; stddev = sqrt( (sum_r nw_r ROWSS(r, mean) / N) / (1 - sum_r nw_r^2 / N) ), nw = weights / sum(weights)")
+STATS.loop_born = {"row_value": _row_born}
+TASKS.append(FunctionTask(STATS, module_env={"np": ModV("np", dict(npm.NP.attrs, sum=FuncV(_m_sum, "np.sum")))},
+                          clauses=["weighted mean and reliability-weighted standard deviation over all realisations with normalised weights"]))
+
 META = dict(
     level="other",
-    explanation="lemmas (weight-scale invariance of the normalised weights, zero-variance closed form) proved; bounded: Voronoi weights against nearest-sensor "
+    explanation="proved: _statistics (normalised weights, weighted mean over all realisations, reliability-weighted standard deviation; row sums named); "
+                "lemmas (weight-scale invariance of the normalised weights, zero-variance closed form) proved; bounded: Voronoi weights against nearest-sensor "
                 "area fractions of the boundary's convex hull computed by independent Sutherland-Hodgman half-plane clipping (non-negative, sum to one, "
                 "indices = sensors strictly inside, invariant under sensor order, translation up to 1e4 x extent and scaling 1e-3..1e3); Monte-Carlo "
                 "statistics against the weighted mean / reliability-weighted standard deviation of the realisations in the requested space for the four "
                 "generator/spatial combinations, seed reproducibility, closed forms",
     trusted_base=["scipy.spatial.Voronoi, shapely (not axiomatised: geometric half is bounded only)", "numpy random Generator", "the independent clipping oracle"],
-    assumptions=["A-RNG", "A-REAL for the lemmas"],
+    assumptions=["A-RNG", "A-REAL", "A-NP-SUM (np.sum over the columns of one row = the named row sums ROWSUM / ROWSS)", "sum(weights) != 0 and 1 - sum nw^2 / N != 0"],
 )
